@@ -100,7 +100,8 @@ ESCAPES = {"\t": "\\t", "\r": "\\r", "\n": "\\n", "\\": "\\\\", "'": "\\'", '"':
 def string_literal(s: str, rng: Optional[random.Random] = None) -> str:
     out = []
     for ch in s:
-        if ch in ('"', "\\", "\n"):
+        if ch in ('"', "\\", "\n", "\r"):
+            # a raw carriage return in a text file is a line terminator (universal newlines), so it is always escaped
             out.append(ESCAPES[ch])
         elif ch in ESCAPES and (rng is None or rng.random() < 0.7):
             out.append(ESCAPES[ch])
@@ -149,6 +150,7 @@ class Printer:
         self.lines: List[str] = []
         self.pos: Dict[int, Tuple[int, int]] = {}  # id(def) -> (line, col) of its name token, 1-based
         self.refs: List[Tuple[int, int, str, Any]] = []  # (line, col, text, target)
+        self.close_line: Dict[int, int] = {}  # id(message) -> line of its closing brace
         self.chain: List[ScopeTable] = []
 
     # -- low level ---------------------------------------------------------
@@ -274,12 +276,16 @@ class Printer:
         self._noise(depth)
         if e.comment:
             self._line(depth, "// " + e.comment)
-        ln = self._line(depth, f"enum {e.name} : uint{e.width} {{")
+        ln = self._line(depth, f"enum {e.name} : {getattr(e, 'type_text', None) or 'uint%d' % e.width} {{")
         self._mark(e, ln, e.name, self.indent * depth + 5)
         for n, v in e.members:
             lit = hex(v) if e.hex_members else str(v)
             l2 = self._line(depth + 1, f"{n} = {lit}{self._semi()}")
             self.pos[("ef", id(e), n)] = (l2, self.indent * (depth + 1) + 1)
+            self.pos[("ef#", id(e), len([1 for k in self.pos if isinstance(k, tuple) and k[0] == "ef#" and k[1] == id(e)]))] = (l2, self.indent * (depth + 1) + 1)
+        for raw in getattr(e, "raw_items", []):
+            self.pos[id(raw)] = (self._line(depth + 1, raw.text), self.indent * (depth + 1) + 1)
+        self.close_line[id(e)] = len(self.lines) + 1
         self._line(depth, "}")
         self.chain[-1].declare(e.name, e)
 
@@ -322,9 +328,10 @@ class Printer:
             elif isinstance(it, Const):
                 self.emit_const(it, depth + 1)  # invalid on purpose
             elif isinstance(it, RawLine):
-                self._line(depth + 1, it.text)
+                self.pos[id(it)] = (self._line(depth + 1, it.text), self.indent * (depth + 1) + 1)
             else:
                 raise TypeError(it)
+        self.close_line[id(m)] = len(self.lines) + 1
         self.chain.pop()
         self._line(depth, "}")
         self.chain[-1].declare(m.name, m)
@@ -359,7 +366,7 @@ class Printer:
             elif isinstance(it, Message):
                 self.emit_message(it, 0)
             elif isinstance(it, RawLine):
-                self._line(0, it.text)
+                self.pos[id(it)] = (self._line(0, it.text), 1)
             else:
                 raise TypeError(it)
         return "\n".join(self.lines) + "\n"
